@@ -92,12 +92,17 @@ func format(tr *tokenReader, w io.Writer) error {
 }
 
 func formatEnum(tr *tokenReader) []byte {
-	// enum <ID> {\n
+	// enum <ID> [: <TYPE>] {\n
 	enumBytes := tr.Token().concrete
-	for j := 0; j < 2; j++ {
+	headerTokens := 2
+	for j := 0; j < headerTokens; j++ {
 		enumBytes = append(enumBytes, ' ')
 		tr.Next()
 		enumBytes = append(enumBytes, tr.Token().concrete...)
+		if j == 1 && tr.Token().kind == tokenKindColon {
+			// a typed enum: the base type and the opening brace are still to come
+			headerTokens = 4
+		}
 	}
 	enumBytes = append(enumBytes, '\n')
 
